@@ -4,8 +4,9 @@ from props.floats import bits, of_bits, any_bits, SPECIAL, SIGN
 
 ID = 'C09'
 HARNESS = 'c09'
-COQ_IMPORTS = 'From VRP Require Import Base.Tac Base.TotalCmp Model.CostOrder.'
-MODEL_TARGETS = ['theories/Model/CostOrder.vo']
+COQ_IMPORTS = 'From VRP Require Import Base.Tac Base.TotalCmp Model.CostOrder Model.GoalCtx.'
+MODEL_TARGETS = ['theories/Model/CostOrder.vo', 'theories/Model/GoalCtx.vo']
+SUBSTREAMS = ['c09_reader']      # goals read by the real pragmatic reader from the `objectives` section (every multi-objective strategy)
 SIZES = {'quick': 1500, 'thorough': 30000, 'search': 30000}
 RULE = ('cases: InsertionCost pairs/triples (lengths 0-8, components from the float corpus: +-0, denormals, +-inf, NaN '
         'payloads, 2^53+-1, random bit patterns; second operand often a perturbed/padded copy of the first), exact-domain '
@@ -48,15 +49,64 @@ def s(xs):
     return [str(x) for x in xs]
 
 
+POOL = [0, SIGN, bits(1.0), bits(-1.0), bits(2.5), bits(2.0), 0x7FF8000000000000]
+
+
+def gen_goal_spec(rng, nf, flags):
+    """{'via': 0 (Goal::subset_of) | 1 (GoalBuilder), 'layers': [[kind, [feature indices]], ..]}"""
+    withobj = [i for i in range(nf) if flags[i]] or [0]
+    if rng.chance(2, 3):
+        idxs = rng.shuffle(withobj)[:rng.range(1, len(withobj))]
+        if rng.chance(1, 25):
+            idxs.insert(rng.below(len(idxs) + 1), rng.choice([i for i in range(nf) if not flags[i]] or [nf + 1]))   # no objective / unknown
+        if rng.chance(1, 40):
+            idxs = []
+        if rng.chance(1, 12) and idxs:
+            idxs.append(rng.choice(idxs))          # the same objective twice
+        return {'via': 0, 'layers': [[0, [i]] for i in idxs]}
+    layers = []
+    for _ in range(rng.range(0 if rng.chance(1, 30) else 1, 4)):
+        if rng.chance(2, 3):
+            layers.append([0, [rng.below(nf)]])
+        else:
+            layers.append([1, [rng.below(nf) for _ in range(rng.range(1, 3))]])
+    return {'via': 1, 'layers': layers}
+
+
+def spec_single_only(spec):
+    return spec is None or all(l[0] == 0 for l in spec['layers'])
+
+
+def gen_gctx(rng):
+    """a GoalContext built by GoalContextBuilder (with_features / set_main_goal / add_alternative_goal), the contexts handed out
+    by Alternative::maybe_new along scripted paths, two solutions given by the fitness every objective reads"""
+    nf = rng.range(1, 5)
+    flags = [0 if rng.chance(1, 8) else 1 for _ in range(nf)]
+    if not any(flags) and not rng.chance(1, 10):
+        flags[rng.below(nf)] = 1
+    main = None if rng.chance(1, 5) else gen_goal_spec(rng, nf, flags)
+    alts = [gen_goal_spec(rng, nf, flags) for _ in range(rng.below(4))]
+    na = 1 + len(alts)
+    paths = [[], [[0, rng.below(na)]]] + [[[1, i]] for i in range(na)]
+    for _ in range(2):
+        paths.append([[1, rng.below(na)], [rng.below(2), rng.below(na)]])
+    a = [rng.choice(POOL) if rng.chance(3, 4) else any_bits(rng) for _ in range(nf)]
+    b = list(a)
+    for _ in range(rng.range(0, 3)):
+        i = rng.below(nf)
+        b[i] = rng.choice([rng.choice(POOL), any_bits(rng), a[i] ^ SIGN, (a[i] + 1) & 0xFFFFFFFFFFFFFFFF])
+    return {'op': 'gctx', 'flags': flags, 'main': main, 'alts': alts, 'paths': paths, 'a': s(a), 'b': s(b)}
+
+
 def generate(rng, tier, n):
     cases = []
     for k in range(n):
         r = rng.below(100)
-        if r < 35:
+        if r < 32:
             a = vec(rng)
             b = perturb(rng, a) if rng.chance(2, 3) else vec(rng)
             cases.append({'op': 'icost', 'a': s(a), 'b': s(b), 'exact': False})
-        elif r < 50:
+        elif r < 47:
             # lengths 0-9: InsertionCost keeps up to 6 components inline and spills longer vectors to the heap, and the
             # operands of + and - may have any two lengths (the shorter one is padded with zeros)
             la, lb = rng.below(10), rng.below(10)
@@ -70,12 +120,14 @@ def generate(rng, tier, n):
                 va[rng.below(len(va))] = 0
             cases.append({'op': 'icost', 'a': s(bits(float(v)) for v in va), 'b': s(bits(float(v)) for v in vb),
                           'exact': True, 'va': s(va), 'vb': s(vb)})
-        elif r < 62:
+        elif r < 58:
             a = vec(rng, 5)
             b = perturb(rng, a)
             c = perturb(rng, b) if rng.chance(1, 2) else vec(rng, 5)
             cases.append({'op': 'icost3', 'a': s(a), 'b': s(b), 'c': s(c)})
-        elif r < 92:
+        elif r < 80:
+            cases.append(gen_gctx(rng))
+        elif r < 95:
             nl = rng.range(1, 5)
             layers = [1 if rng.chance(2, 3) else rng.range(2, 3) for _ in range(nl)]
             if rng.chance(1, 10):
@@ -104,6 +156,14 @@ def corpus():
         {'op': 'goal', 'layers': [2], 'a': s([z, one]), 'b': s([nz, one])},
         {'op': 'goal', 'layers': [1], 'a': s([nan]), 'b': s([nan | SIGN])},
         {'op': 'goal', 'layers': [2, 1], 'a': s([1, 3, 7]), 'b': s([0, 5, 6])},
+        # main (f0,f1,f2), alternatives (f2,f0) and (f1,f2,f0) as in vrp-scientific's readers: every context orders by ITS goal and
+        # reports ITS fitness vector
+        {'op': 'gctx', 'flags': [1, 1, 1], 'main': {'via': 0, 'layers': [[0, [0]], [0, [1]], [0, [2]]]},
+         'alts': [{'via': 0, 'layers': [[0, [2]], [0, [0]]]}, {'via': 0, 'layers': [[0, [1]], [0, [2]], [0, [0]]]}],
+         'paths': [[], [[0, 0]], [[1, 0]], [[1, 1]], [[1, 2]], [[1, 1], [1, 2]]],
+         'a': s([bits(-1.0), bits(-1.0), bits(-1.0)]), 'b': s([bits(-1.0), nz, bits(-1.0)])},
+        {'op': 'gctx', 'flags': [1, 1, 1], 'main': None, 'alts': [{'via': 1, 'layers': [[1, [1, 2]], [0, [0]]]}],
+         'paths': [[], [[1, 0]], [[1, 1]]], 'a': s([one, bits(2.0), one]), 'b': s([one, one, bits(2.0)])},
     ]
 
 
@@ -127,6 +187,13 @@ def model_term(c):
         return 'run_goal %s %s %s' % (zlist(c['layers']), zlist(ints(c['a'])), zlist(ints(c['b'])))
     if op == 'dominance':
         return 'run_dominance %s' % zlist(c['orders'])
+    if op == 'gctx':
+        def spec(g):
+            return '(%d, [%s])' % (g['via'], '; '.join('(%d, %s)' % (l[0], zlist(l[1])) for l in g['layers']))
+        main = 'None' if c['main'] is None else '(Some %s)' % spec(c['main'])
+        paths = '[' + '; '.join('[' + '; '.join('(%d, %d)' % (h, d) for h, d in p) + ']' for p in c['paths']) + ']'
+        return 'run_gctx %s %s [%s] %s %s %s' % (zlist(c['flags']), main, '; '.join(spec(g) for g in c['alts']), paths,
+                                               zlist(ints(c['a'])), zlist(ints(c['b'])))
 
 
 def fvals(bs):
@@ -171,6 +238,14 @@ def compare(c, impl, model):
         return None
     if op == 'dominance':
         return None if impl['ord'] == model else 'impl %s model %s' % (impl['ord'], model)
+    if op == 'gctx':
+        got = [[int(x) for x in row] for row in impl['obs']]
+        if got != model:
+            if len(got) != len(model):
+                return 'builder: impl %s (%s) model %s' % (got[:1], impl.get('err', ''), model[:1])
+            k = next(i for i in range(len(got)) if got[i] != model[i])
+            return 'path %s field %d ([ab,ba,aa] / fitness a / fitness b): impl %s model %s' % (c['paths'][k // 3], k % 3, got[k], model[k])
+        return None
 
 
 def oracle(c, impl):
@@ -202,16 +277,38 @@ def oracle(c, impl):
             v.append({'class': 'goal-antisym', 'what': 'total_order(a,b) != reverse total_order(b,a)'})
         if all(l == 1 for l in c['layers']):
             # single layers: must equal lexicographic comparison of the reported fitness, +0 == -0
-            def zk(b):
-                b = int(b)
-                if b in (0, SIGN):
-                    return 0
-                return b if b < SIGN else -(b - SIGN) - 1
             ka, kb = [zk(x) for x in impl['fit_a']], [zk(x) for x in impl['fit_b']]
             lex = (ka > kb) - (ka < kb)
             if lex != impl['ab']:
                 v.append({'class': 'goal-lex', 'what': 'single-layer goal order differs from lexicographic fitness order'})
+    if op == 'gctx' and 'err' not in impl:
+        goals = [c['main'], None] + c['alts']        # index 0 the main goal, 1 the built-in heuristic goal, 2.. the configured alternatives
+        for qi, path in enumerate(c['paths']):
+            cur = 0
+            for hit, draw in path:
+                if hit:
+                    cur = 1 + draw
+            who = 'main' if cur == 0 else 'alternative'
+            (ab, ba, aa), fa, fb = impl['obs'][3 * qi:3 * qi + 3]
+            if aa != 0:
+                v.append({'class': 'goal-refl/%s' % who, 'what': 'total_order(a,a) != Equal under the %s goal context' % who})
+            if ab != -ba:
+                v.append({'class': 'goal-antisym/%s' % who, 'what': 'total_order(a,b) != reverse total_order(b,a) under the %s goal context' % who})
+            if spec_single_only(goals[cur]):
+                ka, kb = [zk(x) for x in fa], [zk(x) for x in fb]
+                lex = (ka > kb) - (ka < kb)
+                if len(ka) != len(kb) or lex != ab:
+                    v.append({'class': 'goal-lex/%s' % who,
+                              'what': 'the %s goal context (single layers, reached by %s) orders %d but the fitness vectors it reports '
+                                      'compare %d: %s vs %s' % (who, path, ab, lex, fa, fb)})
     return v
+
+
+def zk(b):
+    b = int(b)
+    if b in (0, SIGN):
+        return 0
+    return b if b < SIGN else -(b - SIGN) - 1
 
 
 def nontrivial_key(c, impl):
@@ -224,6 +321,11 @@ def nontrivial_key(c, impl):
         return None
     if c['op'] == 'goal':
         return ('goal', tuple(c['layers']), tuple(c['a']), tuple(c['b'])) if len(c['layers']) > 1 else None
+    if c['op'] == 'gctx':
+        if 'err' in impl:
+            return None
+        orders = {tuple(impl['obs'][3 * qi]) for qi in range(len(c['paths']))}
+        return ('gctx', str(c['main']), str(c['alts']), tuple(c['a']), tuple(c['b'])) if len(orders) > 1 else None
     return ('dom', tuple(c['orders'])) if len(c['orders']) > 1 else None
 
 
@@ -233,6 +335,13 @@ def classify(c, impl):
         labs.append('goal:' + ('single-only' if all(l == 1 for l in c['layers']) else 'with-multi'))
         if 'panic' not in impl:
             labs.append('goal-order=%s' % impl['ab'])
+    if c['op'] == 'gctx' and 'panic' not in impl:
+        if 'err' in impl:
+            labs.append('gctx:builder-error=%s' % impl['obs'][0][1])
+        else:
+            labs.append('gctx:alternatives=%d' % (1 + len(c['alts'])))
+            if len({tuple(impl['obs'][3 * qi]) for qi in range(len(c['paths']))}) > 1:
+                labs.append('gctx:contexts-order-differently')
     if c['op'] == 'icost' and 'panic' not in impl:
         labs.append('icost-order=%s' % impl['cmp'])
         labs.append('icost-lens=%s' % ('equal' if len(c['a']) == len(c['b']) else 'different'))
